@@ -135,6 +135,15 @@ func propSpecs() map[string]*PropSpec {
 		Outside: []string{"NaN", "lists longer than the bound", "sort.Slice beyond 12 elements (different algorithm)"}})
 	add(&PropSpec{ID: "C14", Title: "Set and list helpers", Gen: elemGen(genC14Elem), Corpus: elemInsts, PkgSize: 2,
 		Outside: []string{"NaN", "lists longer than the bound"}})
+	add(&PropSpec{ID: "C11", Title: "Name conflicts and duplicates are detected exactly and resolved soundly", Level: "model_checking",
+		Outside: []string{"more than 4 derive calls per plugin", "the AST rewrite of call identifiers (derive/generate.go newPackage) and the end-to-end type-check"},
+		RunFn: func(r *Runner) {
+			f := "^VX_C11_register_K[23]$"
+			if r.Tier == "thorough" {
+				f = "^VX_C11_"
+			}
+			r.modeB("derive", f, true, DefaultBounds)
+		}})
 	caseSpec := func(id, title string, f func(tier string) []CaseInst, outside []string) {
 		add(&PropSpec{ID: id, Title: title, PkgSize: 1, Outside: outside,
 			Corpus: func(tier string, seed int64) []Inst { return caseInsts(f(tier))(tier, seed) },
